@@ -16,8 +16,15 @@
 //   E clk pid cb failed regpid   on_exit callback cb runs in actor pid (regpid = the actor it was registered for)
 //   Z clk pid                    the body returns normally
 //   DL clk                       Engine::on_deadlock            END clk    Engine::run() returned
+//   ZB clk pid                   kernel monitor (verif::on_kernel_quiescent hook, reads private kernel state only): actor pid is
+//                                marked to die, was not cleaned up and is not in the list of actors to run - nothing will ever
+//                                schedule it again (logged once per actor, at the first quiescent point where this holds)
 #include <simgrid/Exception.hpp>
 #include <simgrid/s4u.hpp>
+#include "src/kernel/EngineImpl.hpp"
+#include "src/kernel/actor/ActorImpl.hpp"
+#include "src/verif_hooks.hpp"
+#include <algorithm>
 #include <cstdio>
 #include <iostream>
 #include <map>
@@ -44,6 +51,17 @@ static long ncb           = 0;
 static long executed_ops  = 0;
 static const long BUDGET  = 600;
 static double now() { return sg4::Engine::get_clock(); }
+
+static std::set<long> zombies;
+static void quiescent(int)
+{
+  auto* eng         = simgrid::kernel::EngineImpl::get_instance();
+  const auto& torun = eng->get_actors_to_run();
+  for (auto const& [pid, a] : eng->get_actor_list())
+    if (a->wannadie() && not a->to_be_freed() && std::find(torun.begin(), torun.end(), a) == torun.end() &&
+        zombies.insert(pid).second)
+      printf("ZB %.17g %ld\n", now(), (long)pid);
+}
 
 static void reg_exit(const sg4::ActorPtr& who, bool from_self)
 {
@@ -241,6 +259,7 @@ int main(int argc, char** argv)
     printf("T %.17g %ld\n", now(), a.get_pid());
   });
   sg4::Engine::on_deadlock_cb([]() { printf("DL %.17g\n", now()); });
+  simgrid::verif::on_kernel_quiescent = quiescent;
 
   for (size_t k = 0; k < scripts.size(); k++) {
     const Script& s = scripts[k];
